@@ -122,12 +122,11 @@ PROPS["C09"] = {
     "replay_hint": "compile the named source; inspect _index_override / _additional_args of CodeData.from_code(c)",
 }
 PROPS["C05"] = {
-    "imports": VIEW_IMPORTS + " Proofs.C11_Statements Proofs.C01_Statements Proofs.C03_Statements Proofs.C03b_Statements Proofs.C03c_Statements", "prelude": "Definition cfg := Cfg{TAG}.cfg.",
-    "level_text": "TODO", "level_note": "TODO", "trusted_base": COMMON_TB + ["CPython's evaluation of bytecode (exec, sys.settrace) for the behavioural clause: outside every theorem"], "assumptions": [],
+    "imports": VIEW_IMPORTS + " Proofs.C11_Statements Proofs.C01_Statements Proofs.C03_Statements Proofs.C03b_Statements Proofs.C03c_Statements Proofs.NormalFormWf", "prelude": "Definition cfg := Cfg{TAG}.cfg.",
+    "level_text": "Theorem: for every configuration and every code object satisfying view_wf (opcodes known), the normal form of the decoded data reads as the original's instruction stream (opcodes, resolved operands with nested code normalized in turn, jump structure, lines), it is well-formed data, and CPython's disassembler / line reader read the code re-encoded from it as that same stream, with name, filename, first line, stack size and free variables unchanged (composition of C02's decoder theorem, the normal-form well-formedness and C03's encoder theorem). Premises are evaluated on every corpus object (wf-monitor); normalize-then-encode of model and code are compared as full code objects. The behavioural clause (same results, output, exceptions, traced lines) is decided ONLY by executing generated terminating programs before/after: no model of bytecode execution exists here", "level_note": "execution equivalence is not proved: equal symbolic views is the sufficient condition under CPython's fetch-by-index / jump-by-offset rule; flags (CO_NESTED / CO_NOFREE differences) are checked by the oracle's header comparison, not in the theorem", "trusted_base": COMMON_TB + ["CPython's evaluation of bytecode (exec, sys.settrace) for the behavioural clause: outside every theorem"], "assumptions": [],
     "rule": "every corpus / generated code object: symbolic equivalence (dis view, header) of c and normalize().to_code(); generated terminating programs executed with stdout, exception and line trace compared; "
             "distinct = distinct (co_code, name, firstlineno, line table)",
     "replay_hint": "compile data.source (or the named file); c2 = CodeData.from_code(c).normalize().to_code(); compare dis views / exec both",
-    "claimed": False,
 }
 PROPS["C08"] = {
     "imports": JSON_IMPORTS, "prelude": "Definition cfg := Cfg{TAG}.cfg.",
@@ -192,5 +191,4 @@ PROPS["C16"] = {
 }
 
 NOT_CLAIMED = {
-    "C05": "check built (dis-view equivalence, executed programs, full correspondence); its theorem is K2 composed with normalize and K1 and is not finished, so the property is not claimed at proof level yet",
 }
